@@ -135,6 +135,19 @@ static bool noPath(const ob::StateSpace *sp, const ob::State *a, const ob::State
     return false;
 }
 
+// forward path lengths of a 2D car-like space for the pairs (a,b) (b,a) (c,b) (b,c), as "l1,l2,l3,l4" (else "-"): lets the oracle
+// tell a direction switch of the symmetric Dubins variant / an equally long alternative word from a wrong curve
+static std::string carLens(const ob::StateSpace *sp, const ob::State *a, const ob::State *b, const ob::State *c)
+{
+    if (auto d = dynamic_cast<const ob::DubinsStateSpace *>(sp))
+        return vp::bits(d->dubins(a, b).length()) + "," + vp::bits(d->dubins(b, a).length()) + "," +
+               vp::bits(d->dubins(c, b).length()) + "," + vp::bits(d->dubins(b, c).length());
+    if (auto r = dynamic_cast<const ob::ReedsSheppStateSpace *>(sp))
+        return vp::bits(r->reedsShepp(a, b).length()) + "," + vp::bits(r->reedsShepp(b, a).length()) + "," +
+               vp::bits(r->reedsShepp(c, b).length()) + "," + vp::bits(r->reedsShepp(b, c).length());
+    return "-";
+}
+
 // visit the unit components of `sp` with the corresponding sub-states of several parallel states
 template <class F>
 static void forUnits(const ob::StateSpace *sp, const std::vector<const ob::State *> &sts, F &&f)
@@ -629,16 +642,17 @@ int main()
                           << b01(sp->satisfiesBounds(r.s)) << " | sbd " << b01(sp->satisfiesBounds(direct.s))
                           << " | ext " << vp::bits(sp->getMaximumExtent()) << " | enf " << b01(enforced);
                 {
-                    std::string cd, cext, cnp;
+                    std::string cd, cext, cnp, clen;
                     forUnits(inner.get(), {r.s, direct.s, from.s, to.s, s3.s},
                              [&](const ob::StateSpace *u, const std::vector<const ob::State *> &x) {
+                                 clen += " " + (u->satisfiesBounds(x[4]) ? carLens(u, x[2], x[3], x[4]) : std::string("-"));
                                  cd += " " + dist(u, x[0], x[1]);
                                  cext += " " + vp::bits(u->getMaximumExtent());
                                  cnp += " " + b01(noPath(u, x[2], x[3]) || noPath(u, x[4], x[3]));
                              });
                     std::cout << " | cd" << cd << " | cext" << cext;
                     if (containsCar(inner.get()))
-                        std::cout << " | cnp" << cnp;
+                        std::cout << " | cnp" << cnp << " | clen" << clen;
                 }
                 std::cout << "\n";
             }
